@@ -92,7 +92,7 @@ func C14(c *Ctx) {
 	for key, text := range reports {
 		c.Rep.Violate(verdict.Violation{Case: "race:" + key, Sig: "data-race", What: "the race detector reported a data race while goroutines consumed their own iterators:\n" + text})
 	}
-	c.Rep.Rule = "10 closed generators (compiled loops, ranges over string/slice/map, recursive tree walk and chain delegation, closures, switch, nested generator literal; one raw seq term). (a) every pair incl. the same generator twice x ALL interleavings of 4 advances each (70 per pair), PRNG triples (same generator twice + another) x ALL interleavings of 3 (thorough 4) advances each, PRNG 4-iterator schedules; oracle: every iterator's record (MoveNext result, Current, its own effect log per advance) equals its solo record. (b) 16 (thorough 64) goroutines x 40 (200) rounds, each goroutine advancing its own 4 iterators (neighbouring goroutines use distinct instances of the same recursive generators) with PRNG Gosched, built with -race, repeated 3 (20) times with GORACE=halt_on_error=0 log_path; oracle: zero DATA RACE blocks in the log files (counted, exit code not trusted), no panic, records equal solo records; plus every generator's iterator handed back and forth between two goroutines through unbuffered channels (alternating advances). distinct = distinct schedules + distinct goroutine interleavings reconstructed from a global atomic step counter."
+	c.Rep.Rule = "13 closed generators (compiled loops, ranges over four DIFFERENT non-ASCII strings, over slices and maps, recursive tree walk and chain delegation, closures, switch, nested generator literal; one raw seq term). (a) every pair incl. the same generator twice x ALL interleavings of 4 advances each (70 per pair), PRNG triples (same generator twice + another) x ALL interleavings of 3 (thorough 4) advances each, PRNG 4-iterator schedules; oracle: every iterator's record (MoveNext result, Current, its own effect log per advance) equals its solo record. (b) 16 (thorough 64) goroutines x 40 (200) rounds, each goroutine advancing its own 4 iterators (neighbouring goroutines use distinct instances of the same recursive generators) with PRNG Gosched, built with -race, repeated 3 (20) times with GORACE=halt_on_error=0 log_path; oracle: zero DATA RACE blocks in the log files (counted, exit code not trusted), no panic, records equal solo records; plus 16 (64) depth-2500 delegation chains drained simultaneously, 300 recovered panics at nesting depth 100 followed by fresh iterators of every kind, and every generator's iterator handed back and forth between two goroutines through unbuffered channels (alternating advances). distinct = distinct schedules + distinct goroutine interleavings reconstructed from a global atomic step counter."
 	c.Rep.Assumptions = append(c.Rep.Assumptions,
 		"generators of the workload are closed: every side effect goes to the instance's own log, so any cross-iterator influence comes from the runtime or the generated code",
 		"the race detector only sees the interleavings that happened; the evidence counts the distinct ones reconstructed from a global step counter",
